@@ -19,6 +19,12 @@ def init : St := ⟨some JsonC.Heap.init, some {}⟩
 def parseVal (s : String) : Option (Option Id) :=
   if s = "-" then some none else s.toNat?.map some
 
+/-- split at '/' -/
+def splitSlash (bs : Bytes) : List Bytes :=
+  let (cur, acc) := bs.foldl (fun (st : Bytes × List Bytes) b =>
+    if b = 47 then ([], st.2 ++ [st.1]) else (st.1 ++ [b], st.2)) ([], [])
+  acc ++ [cur]
+
 def parseOp : List String → Option Op
   | ["newo"] => some .newObject
   | ["newa"] => some .newArray
@@ -39,6 +45,14 @@ def parseOp : List String → Option Op
   | ["setud", i, t] => do pure (.setUserdata (← i.toNat?) (← parseVal t))
   | ["setser", i, t] => do pure (.setSerializer (← i.toNat?) (← parseVal t))
   | ["copy", s, f] => do pure (.deepCopy (← s.toNat?) (← parseVal f))
+  | ["ptrset", r, path, v] => do
+      -- the pointer text in hex; reference tokens are what lies between the '/' (no `~` escapes generated)
+      let bs ← ofHex path
+      let toks ← match bs with
+        | [] => some []
+        | 47 :: rest => some (splitSlash rest)
+        | _ => none
+      pure (.ptrSet (← r.toNat?) toks (← parseVal v))
   | _ => none
 
 def sortNat (l : List Nat) : List Nat := (l.toArray.qsort (· < ·)).toList
@@ -90,10 +104,34 @@ def toCall : Op → Option Ownership.Call
   | .setUserdata i t => some (.setCb i t)
   | .setSerializer i t => some (.setCb i t)
   | .deepCopy _ _ => none
+  | .ptrSet _ _ _ => none
+
+/-- json_pointer_set: where the pointer leads is the business of C12; given the container the model's
+walk reaches, the ownership effect is that of the corresponding add / put_idx -/
+def ptrCall (m : State) (root : Id) (path : List Bytes) (v : Option Id) : Option Ownership.Call :=
+  match path.getLast? with
+  | none => some (.put root)
+  | some last =>
+    match ptrParent m root path with
+    | none => none
+    | some p =>
+      match m.heap.get? p with
+      | some ⟨_, .arr _, _⟩ =>
+        if last = [45] then some (.seqAdd p v) else (validIndex last).map (fun idx => .seqPut p idx v)
+      | some ⟨_, .obj _, _⟩ => some (.mapAdd p last v)
+      | _ => none
 
 /-- the specification's answer; `none` = the spec leaves the outcome open (or stopped following) -/
-def specStep (w : Ownership.World) (op : Op) (ret : Int) : Option (Ownership.World × Ownership.Effect) :=
+def specStep (m : State) (w : Ownership.World) (op : Op) (ret : Int) : Option (Ownership.World × Ownership.Effect) :=
   match op with
+  | .ptrSet root path v =>
+    match ptrCall m root path v with
+    | some call =>
+      match call, w.call call with
+      | .put _, some (w', e) => some (w', { e with ret := 0 })
+      | .seqPut _ idx _, r => if idx + 1 > 2 ^ 40 ∧ !Ownership.idxImpossible idx then none else r
+      | _, r => r
+    | none => some (w, { ret := -1 })
   | .deepCopy src none => w.deepCopy src
   -- injected shallow-copy failure: whether the k-th shallow copy exists is not the specification's
   -- business; it follows a copy that succeeded and leaves a failed one open
@@ -138,6 +176,17 @@ def covOf (s : State) (op : Op) (r : Res) : List String :=
       [if t.isNone then "setud-clear" else "setud"] ++
       (match s.heap.get? i with | some n => (if n.ud.isSome then ["setud-replaces"] else []) | none => [])
     | .deepCopy _ f => [if f.isSome then "copy-failat" else "copy"]
+    | .ptrSet root path _ =>
+      match path.getLast? with
+      | none => ["ptrset-root"]
+      | some last =>
+        match ptrParent s root path with
+        | none => ["ptrset-no-parent"]
+        | some p =>
+          match s.heap.get? p with
+          | some ⟨_, .arr _, _⟩ => [if last = [45] then "ptrset-append" else if (validIndex last).isSome then "ptrset-index" else "ptrset-bad-index"]
+          | some ⟨_, .obj kvs, _⟩ => [if (findKey kvs last).isSome then "ptrset-replace" else "ptrset-new-key"]
+          | _ => ["ptrset-into-scalar"]
   let survivor := if r.dead.any (fun d => (s.heap.childrenOf d).any (fun c => !r.dead.contains c)) then ["survivor"] else []
   kind ++ cascade ++ failed ++ survivor
 
@@ -171,7 +220,7 @@ def step (s : St) (w : List String) : St × Out :=
         let (sline, w') := match s.w with
           | none => ("*", none)
           | some wd =>
-            match specStep wd op r.ret with
+            match specStep m wd op r.ret with
             | some (wd', e) => (specLine e.ret e.made e.callbacks e.destroyed, some wd')
             | none => ("*", none)
         -- where the spec leaves the outcome open, it resynchronises on the model's graph only when the
